@@ -932,6 +932,25 @@ def _views(ctx, spec, n, stats=False, classical=None, operators_general=False, *
         exp_counts = Counter("".join(str(b) for b in t) for t in shots)
         ctx.check("count-strings", dict(counts) == dict(exp_counts),
                   lambda: f"count strings {dict(counts)} vs tuples {dict(exp_counts)}")
+        # the helper that turns count strings into <Z..Z> on marked qubits, asked directly, the qubits in every kind
+        # of iterable its annotation allows (a one-shot iterable may be walked only once)
+        from orquestra.quantum.measurements.measurements import get_expectation_value_from_frequencies as _gevf
+
+        marked = sorted(rng.sample(range(n), rng.randint(1, n)))
+        spelling = rng.choice(["list", "tuple", "set", "iterator", "generator", "map", "array", "range"])
+        if spelling == "range":
+            marked = list(range(marked[0], marked[-1] + 1))
+        as_given = {"list": list, "tuple": tuple, "set": set, "iterator": iter, "generator": lambda q: (x for x in q),
+                    "map": lambda q: map(int, q), "array": np.array, "range": lambda q: range(q[0], q[-1] + 1)}[spelling](marked)
+        try:
+            f_val = complex(_gevf(as_given, dict(counts)))
+            f_exp = sum(G.z_parity(tuple(marked), t) for t in shots) / len(shots)
+            ctx.check("frequencies-expectation", abs(f_val - f_exp) <= 1e-12,
+                      lambda: f"get_expectation_value_from_frequencies(<{spelling}> {marked}, counts of {len(shots)} shots) = {f_val!r}, "
+                              f"the shots give {f_exp!r}")
+        except Exception as e:
+            ctx.check("frequencies-expectation", False, f"get_expectation_value_from_frequencies(<{spelling}> {marked}, ..) raised {e!r}")
+        mon.note("marked-qubits-as:" + spelling)
         if classical is None:
             # judged by the monitor against the very tuples; a second operator on the same record
             m.get_expectation_values(op)
